@@ -206,6 +206,12 @@ def run(ctx):
                     g = bool_edges(f, lambda d: isinstance(peel(d), tuple) and peel(d)[0] in ('entry', 'field') and 'change_port' in short(d), True)
                     off = f.must_pass(g, [bi]) if g else [bi]
                     rep.check(r2, ok and not off, key, 'port.dst <- %s; under change_port==true on every path: %s' % (short(val)[:90], not off), loc)
+                    # the rewrite belongs to an answer: from it no silent return is reachable
+                    rty_ = f.locals[0]['ty']
+                    silent = [b2 for b2, blk2 in enumerate(f.blocks) if not blk2['cleanup'] and any(
+                        st2['rv']['k'] == 'agg' and st2['rv'].get('adt') == 'std::option::Option' and st2['rv'].get('variant') == 'None' and not st2['lhs']['p'] and f.locals[st2['lhs']['l']]['ty'] == rty_ for st2 in blk2['stmts'])]
+                    r_ = f.reachable(bi)
+                    rep.check(r2, not [b2 for b2 in silent if b2 in r_], key + ':only-when-answering', 'after the local port was rewritten the request is always answered (so no drop event / no silence carries the rewritten port): %s' % (not [b2 for b2 in silent if b2 in r_]), loc)
                 else:
                     v = peel(val)
                     if path.startswith('ip.'):
